@@ -227,6 +227,7 @@ func (x *Exec) step(fr *frame, st *State, ins ssa.Instruction) {
 			} else {
 				x.store(fr, st, loc, c.Zero(elem))
 			}
+			x.noteLocalBox(t, loc)
 			fr.regs[t] = Value{T: t.Type(), Loc: loc}
 		} else {
 			key := cellKey{fr.inst, t}
